@@ -181,6 +181,23 @@ FORMS = [
      not any(c in v for c in "'\x00\x1a\r")),
     ('entity.sql', 'H', '&dtml.html_quote.sql_quote-x;',
      lambda v: not any(c in v for c in "'\x00\x1a\r")),
+    # named special formats that are the identity on the value, together
+    # with html_quote (written before and after it)
+    ('hq-fmt-unquote', 'H', '<dtml-var x fmt=url-unquote html_quote>',
+     lambda v: '%' not in v),
+    ('hq-fmt-unquote-plus', 'H',
+     '<dtml-var x html_quote fmt="url-unquote-plus">',
+     lambda v: '%' not in v and '+' not in v),
+    ('hq-fmt-sql', 'H', '<dtml-var x html_quote fmt=sql-quote>',
+     lambda v: not any(c in v for c in "'\x00\x1a\r")),
+    ('hq-fmt-commas', 'H', '<dtml-var x fmt=comma-numeric html_quote>',
+     lambda v: not any(c.isdigit() for c in v)),
+    ('hq-fmt-multi-line', 'H', '<dtml-var x fmt=multi-line html_quote>',
+     lambda v: '\n' not in v and '\r' not in v),
+    ('epfs-hq-fmt-unquote', 'S', '%(x fmt=url-unquote html_quote)s',
+     lambda v: '%' not in v),
+    ('expr-hq-fmt-sql', 'H', '<dtml-var "x" fmt="sql-quote" html_quote>',
+     lambda v: not any(c in v for c in "'\x00\x1a\r")),
 ]
 PLAIN = [('plain', 'H', '<dtml-var x>'), ('plain-expr', 'H', '<dtml-var "x">'),
          ('plain-epfs', 'S', '%(x)s'), ('plain-ssi', 'H', '<!--#var x-->')]
